@@ -242,6 +242,10 @@ type analysis struct {
 	litOf   map[types.Object]*litInfo
 	litStk  []*litInfo
 	emit    bool
+	// flow-sensitive refinement ("fresh window", see freshWindow below)
+	freshNow  map[types.Object]bool // variables that hold, at the statement being visited, an object allocated by the call that defined them
+	freshPend []types.Object        // definitions seen in the statement being visited
+	noWindow  map[types.Object]bool // variables captured by a function literal or whose address is taken
 }
 
 func (a *analysis) varRegion(o types.Object) *region {
@@ -274,6 +278,9 @@ func (a *analysis) reg(e ast.Expr) *region {
 		}
 		switch v := o.(type) {
 		case *types.Var:
+			if a.emit && a.freshNow[v] {
+				return newRegion() // the allocation of the reaching definition, not everything the variable may ever hold
+			}
 			return a.varRegion(v)
 		case *types.Func:
 			a.funcValue(x, v)
@@ -634,6 +641,9 @@ func (a *analysis) assign(lhs []ast.Expr, rhs []ast.Expr, n ast.Node) {
 	if len(lhs) == len(rhs) {
 		for i := range lhs {
 			rr := a.reg(rhs[i])
+			if len(lhs) == 1 {
+				a.freshDef(lhs[0], rhs[0], rr)
+			}
 			if id, ok := lhs[i].(*ast.Ident); ok {
 				if li := a.litOfExpr(rhs[i]); li != nil {
 					if o := a.objOf(id); o != nil {
@@ -719,9 +729,264 @@ func (a *analysis) block(b *ast.BlockStmt) {
 	if b == nil {
 		return
 	}
+	// the windows of the enclosing blocks are suspended: only straight-line code of ONE statement list is refined
+	saved := a.freshNow
+	a.freshNow = map[types.Object]bool{}
 	for _, s := range b.List {
+		if a.emit {
+			for o := range a.freshNow {
+				if !a.windowAllows(s, o) {
+					delete(a.freshNow, o)
+				}
+			}
+		}
+		a.freshPend = nil
 		a.stmt(s)
+		if a.emit {
+			if _, isAssign := s.(*ast.AssignStmt); isAssign {
+				for _, o := range a.freshPend {
+					a.freshNow[o] = true
+				}
+			}
+		}
+		a.freshPend = nil
 	}
+	a.freshNow = saved
+}
+
+// ---------------------------------------------------------------------------------------------- fresh windows
+//
+// The only flow-sensitive refinement of the analysis.  After a statement `x := f(…)` / `x = f(…)` (one variable, one call) whose
+// result region - BEFORE it is merged into the region of x - shares memory with no input, no package-level variable and
+// no unknown memory (decided from the summaries of the callees and the final regions of the arguments), the variable x
+// holds an object that nothing else refers to.  In the statements that FOLLOW IN THE SAME STATEMENT LIST, as long as every
+// statement either does not mention x at all or mentions it only as the receiver / a plain argument of calls whose
+// summaries (every implementation for an interface call) keep that input isolated (not stored into another input, no
+// other input stored into it, not handed to package-level / unknown memory, not part of the results), the object stays
+// unshared and still reaches no input memory; a use of x in such a call is therefore the fresh allocation, and the call
+// edge carries no input for it.  Excluded: variables captured by a function literal or whose address is taken (an
+// assignment / alias the statement list does not show), labelled statements (jumps into the window), calls with function
+// literal arguments.  The refinement is applied in the emitting pass only: an isolated call unifies nothing through that
+// argument, so the regions and the summaries are the same with and without it.
+
+func (a *analysis) computeNoWindow() {
+	a.noWindow = map[types.Object]bool{}
+	var lits []*ast.FuncLit
+	var visit func(n ast.Node) bool
+	visit = func(n ast.Node) bool {
+		switch x := n.(type) {
+		case *ast.FuncLit:
+			lits = append(lits, x)
+			ast.Inspect(x.Body, visit)
+			lits = lits[:len(lits)-1]
+			return false
+		case *ast.UnaryExpr:
+			if x.Op == token.AND {
+				ast.Inspect(x.X, func(m ast.Node) bool {
+					if id, ok := m.(*ast.Ident); ok {
+						if o := a.objOf(id); o != nil {
+							a.noWindow[o] = true
+						}
+					}
+					return true
+				})
+			}
+		case *ast.Ident:
+			if len(lits) > 0 {
+				if o := a.objOf(x); o != nil {
+					for _, l := range lits {
+						if o.Pos() < l.Pos() || o.Pos() >= l.End() {
+							a.noWindow[o] = true
+						}
+					}
+				}
+			}
+		}
+		return true
+	}
+	ast.Inspect(a.f.decl.Body, visit)
+}
+
+// a definition `x = call` whose value (region rr, not yet merged with x) is fresh
+func (a *analysis) freshDef(lhs, rhs ast.Expr, rr *region) {
+	if !a.emit || len(a.litStk) > 0 {
+		return
+	}
+	id, ok := lhs.(*ast.Ident)
+	if !ok || id.Name == "_" {
+		return
+	}
+	call, ok := unparen(rhs).(*ast.CallExpr)
+	if !ok {
+		return
+	}
+	if tv, ok := a.info.Types[call.Fun]; ok && tv.IsType() {
+		return
+	}
+	v, ok := a.objOf(id).(*types.Var)
+	if !ok || v.IsField() || v.Pkg() == nil || v.Parent() == v.Pkg().Scope() || a.noWindow[v] || !carrier(v.Type()) {
+		return
+	}
+	for _, e := range call.Args { // x = f(x): the old value of x is an argument - handled by the regions, but keep it simple
+		mentions := false
+		ast.Inspect(e, func(m ast.Node) bool {
+			if i2, ok := m.(*ast.Ident); ok && a.objOf(i2) == v {
+				mentions = true
+			}
+			return true
+		})
+		if mentions {
+			return
+		}
+	}
+	r := rr.find()
+	if r.inputs != 0 || r.global || r.unknown {
+		return
+	}
+	a.freshPend = append(a.freshPend, v)
+}
+
+// the callees a call may reach (nil: not resolved inside the analysed packages) and the input index of the receiver
+func (a *analysis) staticTargets(x *ast.CallExpr) (targets []*fn, recv ast.Expr, ok bool) {
+	if tv, isT := a.info.Types[x.Fun]; isT && tv.IsType() {
+		return nil, nil, false
+	}
+	fun := unparen(x.Fun)
+	if ix, isIx := fun.(*ast.IndexExpr); isIx {
+		fun = unparen(ix.X)
+	}
+	var callee *types.Func
+	switch f := fun.(type) {
+	case *ast.Ident:
+		callee, _ = a.info.Uses[f].(*types.Func)
+	case *ast.SelectorExpr:
+		if sel, isSel := a.info.Selections[f]; isSel {
+			if sel.Kind() == types.MethodVal {
+				callee, _ = sel.Obj().(*types.Func)
+				recv = f.X
+			}
+		} else {
+			callee, _ = a.info.Uses[f.Sel].(*types.Func)
+		}
+	}
+	if callee == nil {
+		return nil, nil, false
+	}
+	sig := callee.Type().(*types.Signature)
+	if recv != nil && sig.Recv() != nil && types.IsInterface(sig.Recv().Type()) {
+		it := a.typeOf(recv)
+		if !types.IsInterface(it) {
+			it = sig.Recv().Type()
+		}
+		impls := a.p.implementations(it, callee)
+		return impls, recv, len(impls) > 0
+	}
+	if t := a.p.byObj[fkey(callee)]; t != nil {
+		return []*fn{t}, recv, true
+	}
+	return nil, nil, false
+}
+
+func isolatedInput(s *summary, i int) bool {
+	if i < 0 || i >= s.nin || s.class[i] != i || s.other[i] || s.ret&(1<<uint(i)) != 0 {
+		return false
+	}
+	for j := 0; j < s.nin; j++ {
+		if j != i && s.class[j] == i {
+			return false
+		}
+	}
+	return true
+}
+
+// may the window of variable o continue through statement s?
+func (a *analysis) windowAllows(s ast.Stmt, o types.Object) bool {
+	switch s.(type) {
+	case *ast.ExprStmt, *ast.AssignStmt:
+	default:
+		// any other statement: only when it does not mention the variable at all
+		mentioned := false
+		ast.Inspect(s, func(m ast.Node) bool {
+			if _, isLabel := m.(*ast.LabeledStmt); isLabel {
+				mentioned = true
+			}
+			if id, ok := m.(*ast.Ident); ok && a.objOf(id) == o {
+				mentioned = true
+			}
+			return true
+		})
+		return !mentioned
+	}
+	allowed := map[*ast.Ident]bool{}
+	bad := false
+	ast.Inspect(s, func(m ast.Node) bool {
+		switch c := m.(type) {
+		case *ast.FuncLit:
+			bad = true // (a captured variable has no window anyway)
+			return false
+		case *ast.CallExpr:
+			targets, recv, ok := a.staticTargets(c)
+			if !ok {
+				return true
+			}
+			for _, e := range c.Args {
+				if _, isLit := unparen(e).(*ast.FuncLit); isLit {
+					return true
+				}
+				if id, isId := unparen(e).(*ast.Ident); isId {
+					if ob := a.info.Uses[id]; ob != nil && a.litOf[ob] != nil {
+						return true
+					}
+				}
+				if t, isTuple := a.typeOf(e).(*types.Tuple); isTuple && t != nil {
+					return true
+				}
+			}
+			k := 0
+			var cands []*ast.Ident
+			var idxs []int
+			if recv != nil {
+				k = 1
+				if id, isId := unparen(recv).(*ast.Ident); isId && a.objOf(id) == o {
+					cands = append(cands, id)
+					idxs = append(idxs, 0)
+				}
+			}
+			for i, e := range c.Args {
+				if id, isId := unparen(e).(*ast.Ident); isId && a.objOf(id) == o {
+					cands = append(cands, id)
+					idxs = append(idxs, k+i)
+				}
+			}
+			for q, id := range cands {
+				good := true
+				for _, t := range targets {
+					sig := t.obj.Type().(*types.Signature)
+					if sig.Variadic() && idxs[q] >= t.sum.nin-1 {
+						good = false
+					}
+					if !isolatedInput(t.sum, idxs[q]) {
+						good = false
+					}
+				}
+				if good {
+					allowed[id] = true
+				}
+			}
+		}
+		return true
+	})
+	if bad {
+		return false
+	}
+	ok := true
+	ast.Inspect(s, func(m ast.Node) bool {
+		if id, isId := m.(*ast.Ident); isId && a.objOf(id) == o && !allowed[id] {
+			ok = false
+		}
+		return true
+	})
+	return ok
 }
 
 func (a *analysis) stmt(s ast.Stmt) {
@@ -1231,7 +1496,7 @@ func (p *program) implementations(it types.Type, m *types.Func) []*fn {
 
 func (p *program) analyse(f *fn, emit bool) *summary {
 	a := &analysis{p: p, f: f, info: f.pkg.TypesInfo, vars: map[types.Object]*region{}, globalR: &region{global: true},
-		ret: newRegion(), lits: map[*ast.FuncLit]*litInfo{}, litOf: map[types.Object]*litInfo{}}
+		ret: newRegion(), lits: map[*ast.FuncLit]*litInfo{}, litOf: map[types.Object]*litInfo{}, freshNow: map[types.Object]bool{}}
 	inR := make([]*region, len(f.inputs))
 	for i, v := range f.inputs {
 		r := newRegion()
@@ -1261,6 +1526,7 @@ func (p *program) analyse(f *fn, emit bool) *summary {
 	}
 	if emit {
 		f.writes, f.calls, f.exts, f.gstores = nil, nil, nil, nil
+		a.computeNoWindow()
 		a.emit = true
 		a.lits = map[*ast.FuncLit]*litInfo{}
 		// keep the parameter variables of the literals in their regions: funcLit() re-creates the infos
